@@ -56,9 +56,20 @@ pub struct Dates {
 
 impl Dates {
     pub(crate) const fn new(month_shape: MonthShape) -> Self {
+        // Days whose Julian day numbers are out of range (which can only
+        // happen at the start of the first month and the end of the last month
+        // of the supported range) have no `Date`, so leave them out.
+        let mut start = 1;
+        let mut end = month_shape.len();
+        while start <= end && month_shape.nth_date(start).is_none() {
+            start += 1;
+        }
+        while start <= end && month_shape.nth_date(end).is_none() {
+            end -= 1;
+        }
         Dates {
             month_shape,
-            inner: 1..=(month_shape.len()),
+            inner: start..=end,
         }
     }
 }
